@@ -8,6 +8,7 @@ import SfntV.Proofs.NamesPost
 import SfntV.Proofs.NamesTable
 import SfntV.Proofs.NamesLocale
 import SfntV.Proofs.NamesChoose
+import SfntV.Proofs.NamesScriptList
 import SfntV.Spec.Names
 
 namespace SfntV.Props.C14
@@ -217,6 +218,117 @@ theorem C14_tag_string_roundtrip (s l : List Nat) (hs : OTScript s) (hl : OTLang
 example : OTScript [108, 97, 111, 32] ∧ OTLang [78, 76, 68, 32] ∧
     extString [108, 97, 111, 32] [78, 76, 68, 32] = [120, 45, 108, 97, 111, 45, 110, 108, 100] :=
   ⟨isOTScriptB_sound _ (by decide), isOTLangB_sound _ (by decide), by decide⟩
+
+/-! ### tags without the `-x-` extension (repaired `bcp47ToOtf`, a8e5c74) -/
+
+/-- Determinism: for a tag without extension the answer of `bcp47ToOtf` does not depend on the
+order in which Go iterates over `scriptBcp47` / `langBcp47` (any two enumerations of the
+regenerated tables give the same pair). -/
+theorem C14_tag_noext_deterministic (so₁ lo₁ so₂ lo₂ : List (List Nat × List Nat))
+    (h1 : ∀ p, p ∈ so₁ ↔ p ∈ Gen.otScripts) (h2 : ∀ p, p ∈ lo₁ ↔ p ∈ Gen.otLangs)
+    (h3 : ∀ p, p ∈ so₂ ↔ p ∈ Gen.otScripts) (h4 : ∀ p, p ∈ lo₂ ↔ p ∈ Gen.otLangs)
+    (kind : Nat) (rawLang script : List Nat) :
+    noExtToOtf so₁ lo₁ kind rawLang script = noExtToOtf so₂ lo₂ kind rawLang script := by
+  have ks := tagTableOK_keys _ otScripts_ok
+  have kl := tagTableOK_keys _ otLangs_ok
+  unfold noExtToOtf
+  rw [revLookup_order_independent so₁ so₂ script (fun p => (h1 p).trans (h3 p).symm)
+        (fun p hp => ks p ((h1 p).mp hp)),
+      revLookup_order_independent lo₁ lo₂ rawLang (fun p => (h2 p).trans (h4 p).symm)
+        (fun p hp => kl p ((h2 p).mp hp))]
+
+/-- Normal form of `bcp47ToOtf ∘ (value of)`: send a script tag `p` and a language tag `q` of
+the tables as the plain BCP 47 tag "`lang`-`Script`" (possible when the language value is a bare
+subtag: all but the eight of `otLangs_dashed`).  What comes back is `(p, q)` itself EXCEPT that a
+tag sharing its BCP 47 value with a smaller tag comes back as that smaller twin: exactly the ten
+scripts of `scriptTwins` (`bng2→beng`, `deva→dev2`, `gujr→gjr2`, `guru→gur2`, `knda→knd2`,
+`mlym→mlm2`, `mymr→mym2`, `orya→ory2`, `telu→tel2`, `tml2→taml`) and the nineteen languages of
+`langTwins` (`NLD→FLE`, `ROM→MOL`, `HYE0→HYE`, …).  The default language system (`und`) comes
+back as the empty language tag. -/
+theorem C14_tag_noext_normal_form (p : List Nat × List Nat) (hp : p ∈ Gen.otScripts) :
+    (∀ q ∈ Gen.otLangs, q.2.contains 45 = false →
+      noExtToOtf Gen.otScripts Gen.otLangs 0 q.2 p.2 = (nfTag scriptTwins p.1, nfTag langTwins q.1)) ∧
+    noExtToOtf Gen.otScripts Gen.otLangs 0 undS p.2 = (nfTag scriptTwins p.1, []) ∧
+    (tagGet scriptTwins p.1 = none → nfTag scriptTwins p.1 = p.1) := by
+  refine ⟨?_, ?_, ?_⟩
+  · intro q hq hd
+    simp only [noExtToOtf, show (0 : Nat) ≠ 1 by omega, show (0 : Nat) ≠ 2 by omega,
+      show (0 : Nat) ≠ 3 by omega, if_false, otScripts_nf p hp, otLangs_nf q hq hd]
+  · have hu : revLookup Gen.otLangs undS = [] := by
+      rcases revLookup_spec Gen.otLangs undS (tagTableOK_keys _ otLangs_ok) with ⟨h0, _⟩ | ⟨_, ⟨w, hw, _, hw2⟩, _⟩
+      · exact h0
+      · have := List.all_eq_true.mp otTables_misc.1 w hw
+        simp [hw2] at this
+    simp only [noExtToOtf, show (0 : Nat) ≠ 1 by omega, show (0 : Nat) ≠ 2 by omega,
+      show (0 : Nat) ≠ 3 by omega, if_false, otScripts_nf p hp, hu]
+  · intro h; simp [nfTag, h]
+
+/-- `otfToBCP47 (bcp47ToOtf t) ≈ t` for every plain tag the tables can express (string level):
+if `t` has script `S` (a value of `scriptBcp47`) and language `L` (a value of `langBcp47`, or
+`und`), then for every iteration order `bcp47ToOtf t = (s, l)` names OpenType tags the library
+knows and `otfToBCP47 (s, l)` builds the string "`L`-`S`-x-`s`[-`l`]": the same language and
+script, plus the private-use extension recording the OpenType tags chosen. -/
+theorem C14_tag_noext_back (so lo : List (List Nat × List Nat))
+    (hso : ∀ p, p ∈ so ↔ p ∈ Gen.otScripts) (hlo : ∀ p, p ∈ lo ↔ p ∈ Gen.otLangs)
+    (S L : List Nat) (hS : ∃ k, (k, S) ∈ Gen.otScripts)
+    (hL : (∃ k, (k, L) ∈ Gen.otLangs) ∨ L = undS) :
+    otfToBCP47Str Gen.otScripts Gen.otLangs (noExtToOtf so lo 0 L S).1 (noExtToOtf so lo 0 L S).2 =
+      some (otfTagString S L (noExtToOtf so lo 0 L S).1 (noExtToOtf so lo 0 L S).2) := by
+  apply noext_back Gen.otScripts Gen.otLangs so lo otScripts_ok otLangs_ok hso hlo S L hS
+  rcases hL with h | h
+  · exact Or.inl h
+  · refine Or.inr ⟨h, fun p hp => ?_⟩
+    have := List.all_eq_true.mp otTables_misc.1 p hp
+    simpa using this
+
+/-- The three special cases: `zh`, `zh-Hans`, `zh-Hant` give (`hani`, `ZHP `/`ZHS `/`ZHT `), and
+`otfToBCP47` of these builds `zh-Hani-x-hani-zhp`, `zh-Hans-x-hani-zhs`, `zh-Hant-x-hani-zht`. -/
+theorem C14_tag_chinese :
+    noExtToOtf Gen.otScripts Gen.otLangs 1 [122, 104] [72, 97, 110, 115] = (hani, ZHP) ∧
+    noExtToOtf Gen.otScripts Gen.otLangs 2 [122, 104] [72, 97, 110, 115] = (hani, ZHS) ∧
+    noExtToOtf Gen.otScripts Gen.otLangs 3 [122, 104] [72, 97, 110, 116] = (hani, ZHT) ∧
+    otfToBCP47Str Gen.otScripts Gen.otLangs hani ZHP =
+      some [122, 104, 45, 72, 97, 110, 105, 45, 120, 45, 104, 97, 110, 105, 45, 90, 72, 80] ∧
+    otfToBCP47Str Gen.otScripts Gen.otLangs hani ZHS =
+      some [122, 104, 45, 72, 97, 110, 115, 45, 120, 45, 104, 97, 110, 105, 45, 90, 72, 83] := by
+  refine ⟨rfl, rfl, rfl, ?_, ?_⟩ <;> decide +kernel
+
+example : nfTag langTwins [78, 76, 68, 32] = [70, 76, 69, 32] ∧ nfTag langTwins [68, 69, 85, 32] = [68, 69, 85, 32] ∧
+    nfTag scriptTwins [98, 110, 103, 50] = [98, 101, 110, 103] := by decide
+
+/-- Script lists, tags to tags: the composition of this property's tag conversions with the
+binary script-list codec proved in C08 (`SL.encode` / `SL.readSized`, `C08_scriptlist_roundtrip`).
+A Go `ScriptListInfo` is a list of items (key as x/text presents it, required feature, optional
+features).  Hypotheses: every key lies in the domain of the tag theorems (`KeyOk`: a tag built by
+`otfToBCP47` from a pair of the regenerated tables, or a plain tag whose script and language the
+tables can express); feature indices are 16-bit (no optional index 0xFFFF, which the reader
+normalises); distinct keys give distinct OpenType tag pairs (automatic for extension keys; two
+plain keys must not be twins); the encoder returns bytes (it panics beyond 16-bit offsets).
+C08's domain `SL.InputOk` is DERIVED from these (the key lists C08 regenerates are the same
+tables: `c08_keys_same`).  Conclusion: the reader — at any position of a table of `size` bytes —
+returns entries such that every item comes back with its features under the key string `strs it`
+(the very string for extension keys; "`L`-`S`" plus the extension naming the smallest matching
+OpenType tags for plain keys), and nothing else comes back.  Holds for every iteration order
+`so`/`lo` of the two tag maps. -/
+theorem C14_scriptlist_roundtrip (so lo : List (List Nat × List Nat))
+    (hso : ∀ p, p ∈ so ↔ p ∈ Gen.otScripts) (hlo : ∀ p, p ∈ lo ↔ p ∈ Gen.otLangs)
+    (m : List SLItem) (strs : SLItem → List Nat) (hk : ∀ it ∈ m, KeyOk so lo it.key (strs it))
+    (hf : ∀ it ∈ m, it.required < 65536 ∧ it.optional.length < 65536 ∧ ∀ x ∈ it.optional, x < 65535)
+    (hd : (toEntries so lo m).Pairwise fun a c => ¬ (a.script = c.script ∧ a.lang = c.lang))
+    (b : Bytes) (hb : Otl.SL.encode (toEntries so lo m) = .ok b)
+    (tail : Bytes) (size : Nat) (hsize : (b ++ tail).length ≤ size) :
+    ∃ r, Otl.SL.readSized size (b ++ tail) = .ok r ∧
+      (∀ it ∈ m, ∃ e ∈ r, e.required = it.required ∧ e.optional = it.optional ∧
+        backString e = some (strs it)) ∧
+      (∀ e ∈ r, ∃ it ∈ m, e.required = it.required ∧ e.optional = it.optional ∧
+        backString e = some (strs it)) :=
+  scriptlist_roundtrip so lo hso hlo m strs hk
+    (inputOk_of_items so lo hso hlo m strs hk hf hd) b hb tail size hsize
+
+example : KeyOk Gen.otScripts Gen.otLangs (.ext (extString [108, 97, 116, 110] [78, 76, 68, 32]))
+    (otfTagString [76, 97, 116, 110] [110, 108] [108, 97, 116, 110] [78, 76, 68, 32]) :=
+  KeyOk.ext ([108, 97, 116, 110], [76, 97, 116, 110]) ([78, 76, 68, 32], [110, 108])
+    (by decide +kernel) (by decide +kernel)
 
 /-- `Tables.Choose`, up to the external matcher: the candidate list handed to
 `language.NewMatcher` contains exactly the map's keys, and it is the same list for every
